@@ -110,6 +110,26 @@ func rpcs() []rpc {
 	}
 }
 
+// rawInit is the raw resource option that configures one initial record of the collection behind r: stored under
+// rr.SID, carrying rr.Key in its key field (and in the witness field).
+func (r rpc) rawInit(rr rawRec) resource.Option {
+	switch r.Name {
+	case "electric.ListModes":
+		return electricpb.WithModeOption(resource.WithInitialRecord(rr.SID, &traits.ElectricMode{Id: rr.Key, Title: rr.Key}))
+	case "hail.ListHails":
+		return resource.WithInitialRecord(rr.SID, &traits.Hail{Id: rr.Key, Origin: &traits.Hail_Location{Name: rr.Key}})
+	case "parent.ListChildren":
+		return parentpb.WithChildrenOption(resource.WithInitialRecord(rr.SID, &traits.Child{Name: rr.Key, Parent: rr.Key}))
+	case "publication.ListPublications":
+		return publicationpb.WithPublicationOption(resource.WithInitialRecord(rr.SID, &traits.Publication{Id: rr.Key, Body: []byte("b" + rr.Key), MediaType: rr.Key}))
+	case "vending.ListConsumables":
+		return vendingpb.WithConsumablesOption(resource.WithInitialRecord(rr.SID, &traits.Consumable{Name: rr.Key, Title: rr.Key}))
+	case "vending.ListInventory":
+		return vendingpb.WithInventoryOption(resource.WithInitialRecord(rr.SID, &traits.Consumable_Stock{Consumable: rr.Key}))
+	}
+	panic("no raw initial records on " + r.Name)
+}
+
 func rpcByName(n string) (rpc, bool) {
 	for _, r := range rpcs() {
 		if r.Name == n {
